@@ -228,7 +228,7 @@ fn strategy(tier: Tier) -> BoxedStrategy<Case> {
             bars: vec![]
         }),
         // prices in an enormous unit (up to 5e307): intermediate doubling / scaling must not overflow
-        1 => cfg_among(&SK, 1024, || prop_oneof![Just(0.0), Just(1.0), Just(-0.5), Just(0.25)].boxed()).prop_flat_map(move |cfg| (Just(cfg), stream(Domain::Huge, 1, maxlen))).prop_map(|(cfg, s)| Case {
+        1 => cfg_among(&SK, 1024, || prop_oneof![Just(0.0), Just(1.0), Just(-0.5), Just(0.25)].boxed()).prop_flat_map(move |cfg| (Just(cfg), prop_oneof![stream(Domain::Huge, 1, maxlen), stream(Domain::HugeScalar, 1, maxlen)])).prop_map(|(cfg, s)| Case {
             cfg,
             scalar: true,
             xs: xs(&s.vals),
